@@ -80,6 +80,37 @@ def run(pid):
     if pid == "C09" and thorough:
         bitsset = tuple(range(8, 21)) + (24,)
     total = unattributed = 0
+    # 0. (C04) the byte-accurate mechanism model with both collectors: Store.tla model-checked (Refines at every state, so a
+    #    cycle never changes the contents), every transition executed on the real store (verdict: StoreTrace), the model's
+    #    files compared with the projection of the real files after every flush and every cycle (StoreMTrace: conformance figure)
+    if pid == "C04":
+        mkeys = [[1, 7, 7, 0, 9, 0, 3, 3], [1, 7, 7, 0, 9, 0, 3, 4], [2, 7, 7, 0, 9, 0, 3, 3]]
+        drift_total = checked_total = 0
+        for pl, il, mc in ([(33, 30, 6), (70, 70, 6)] if thorough else [(33, 30, 5)]):
+            consts = {"Vals": "{0, 5}", "PriLimit": pl, "IdxLimit": il, "MaxCalls": mc, "WithGC": "TRUE"}
+            r0 = vlib.tlc_must("MCStore", "MCStore_mc.cfg", consts=consts, timeout=3000)
+            if r0.violated:
+                raise vlib.Infra("Store.tla (with GC) violates Refines / PredictedPositionsExact / FreedOnce - replay the counter-example first:\n" + r0.out[-2500:])
+            rep.add_model(r0)
+            ms, g0, nexp = vlib.gen_scenarios("MCStore", "MCStore", consts, edges=True, timeout=3000)
+            ms = [m for m in ms if any(o["op"] in ("idxgc", "prigc") for o in m["ops"])]
+            mcfg = dict(primary="mh", bits=8, il=il, pl=pl, imm=False, keys=mkeys, vals=["empty", "b5"], proj=True, probe="end")
+            msc = [{"cfg": mcfg, "ops": [dict(o, v=(1 if o.get("vlen") == 0 else 2)) if o["op"] == "put" else o for o in m["ops"]]} for m in ms]
+            vlib.log("C04: Store.tla with GC, limits %d/%d, <= %d calls: %d states, %d transitions, %d maximal histories with a GC cycle" % (pl, il, mc, g0.distinct, nexp, len(msc)))
+            for i in range(0, len(msc), 60000):
+                part = msc[i:i + 60000]
+                bym, nm = seqeng.run_and_judge(part, "mech", monitors=[("StoreTrace", None)], keep=True)
+                minem, otherm = attribute(spec, part, bym)
+                report_bad(rep, part, minem)
+                drift, nl, _ = vlib.validate_traces("StoreMTrace", "StoreMTrace.cfg", seqeng.KEPT_FILES, consts=dict(consts, MaxCalls=100000))
+                for f in seqeng.KEPT_FILES:
+                    os.unlink(f)
+                drift_total += len({b["t"] for b in drift})
+                rep.cov["evaluations"] += nm
+            checked_total += len(msc)
+            total += len(msc)
+        rep.cov["mechanism_model_histories_replayed"] = checked_total
+        rep.cov["mechanism_model_histories_whose_files_differ_from_the_model"] = drift_total
     # 1. exhaustive short histories
     blen = 5 if thorough else 4
     consts = seqeng.kv_consts(spec["bfs_nk"], spec["bfs_weights"], blen, nv=spec["bfs_nv"], deadlines=(0, 2) if pid == "C04" else (0,),
